@@ -52,7 +52,7 @@ func generate(ld *Loaded, cs *Contracts, fc *FuncContract) *FuncResult {
 	}
 	res.cx = cx
 	ex := &Exec{cx: cx, ld: ld, cs: cs, fieldOwner: ld.fieldOwner, fc: fc, fn: fn, paramEntry: map[string]SVal{},
-		nilChecked: map[string]bool{}, callOrd: map[string]int{}, kindOrd: map[string]int{}, edgeFrom: map[*State]*ssa.BasicBlock{}}
+		nilChecked: map[string]bool{}, callOrd: map[string]int{}, kindOrd: map[string]int{}, edgeFrom: map[*State]*ssa.BasicBlock{}, heapElemType: map[string]types.Type{}}
 	if fn == nil {
 		cx.unsup("function not found")
 		res.Unsupported = cx.unsupported
@@ -187,6 +187,10 @@ func (ex *Exec) obligeNoAssume(kind, label string, st *State, goal Term, p inter
 	o.Name = fmt.Sprintf("%s#%s:%s", ex.cx.fnName, kind, label)
 	if n := ex.kindOrd[key]; n > 1 {
 		o.Name += fmt.Sprintf("@%d", n)
+	}
+	// later obligations may use this one (proved in sequence)
+	if kind != "frame" && kind != "frame-on-panic" {
+		ex.cx.assume(implies(st.reach, goal))
 	}
 }
 
